@@ -69,6 +69,8 @@ def run(rep, tier, seed, budget):
     lemmas.ring_label_step(ctx, rep, nmax=120 if quick else 400, witness=lambda n: {
         "prop": "C01", "kind": "decode_valid", "table": None, "selfies": TRIANGLE * (n + 1)})
 
+    lemmas.writer_graphs(ctx, rep, natoms=(3, 3) if quick else (4, 4), max_rings=3 if quick else 4, time_limit=40 if quick else 400)
+
     # (b) bounded whole-decoder exploration ---------------------------------------------------
     plan = []
     if quick:
@@ -77,6 +79,7 @@ def run(rep, tier, seed, budget):
     else:
         plan += [("core", dech.A_CORE, dech.KEYS_CORE, n) for n in (1, 2, 3, 4, 5, 6, 7, 8)]
         plan += [("dec", dech.A_DEC + ["."], dech.KEYS_DEC, n) for n in (1, 2, 3, 4)]
+        plan += [("rings across fragments", ["[C]", "[Ring1]", "[Ring2]", "[=Ring1]", "."], ["C", "?"], n) for n in (6, 8, 10)]
         plan += [("idx3", ["[C]", "[=C]", "[Ring3]", "[Branch3]", "[=Ring2]", "[Branch2]", "[N]", "[epsilon]"],
                   dech.KEYS_DEC[:2] + ["?"], n) for n in (3, 5, 6)]
     for tag, alpha, keys, n in plan:
